@@ -236,4 +236,27 @@ CHECKS = {
              "findings K3: both 64-bit formats' upper clip bound rounds up "
              "(large positive -> most negative / 0), listed in "
              "known_findings.json."),
+    "C11": dict(
+        technique="constant folding of the link tables (exhaustive), "
+                  "linear-constraint abstract interpretation of from_vector, "
+                  "order-type abstract evaluation of the unrolled comparison "
+                  "code (13 / 13 / 4683 weak orderings), normal-form "
+                  "comparison of the torus candidates",
+        text="Link vectors, their inverse table, opposites and the Routes "
+             "numbering are mutually consistent and equal the documented six "
+             "directions; from_vector folds every wrapped component into "
+             "{-1,0,1} with the sign flipped (R1). The walk steps by "
+             "(s,0)/(0,s)/(-s,-s) per dimension and labels each step with "
+             "from_vector of the step actually added; ring directions are "
+             "the six links in rotation order (R2). shortest_mesh_path_"
+             "length = max-min, minimise_xyz subtracts the median, "
+             "shortest_torus_path_length = min(max(x,y), w-x+y, x+h-y, "
+             "max(w-x,h-y)) on every weak ordering of the operands; the "
+             "vector function pairs those same four lengths with the "
+             "matching vectors; spiral bounds are truncated quotients (R3).",
+        note="Not decided: that those closed forms equal graph distance in "
+             "the hexagonal mesh/torus (a mathematical fact needing a "
+             "distance oracle); hop count after the random spiral "
+             "adjustment; exactly-once coverage of concentric_hexagons. "
+             "Trusted: the six link vectors transcribed in rules/C11.py."),
 }
